@@ -19,7 +19,7 @@ META = {
 }
 
 TABLES = ["MACRO_RECURSION_COST", "INCLUDE_RECURSION_COST", "MAX_RECURSION_ENV", "C11_REENTRY_SITES",
-          "C11_DEPTH_CHECK", "C11_LIMIT_CLAMP", "C11_INCLUDE_EXITS", "C11_DECR_DEPTH", "C11_CONTEXT_SITES", "C11_LIMIT_SOURCE",
+          "C11_DEPTH_CHECK", "C11_LIMIT_CLAMP", "C11_INCLUDE_EXITS", "C11_DECR_DEPTH", "C11_CONTEXT_SITES", "C11_LIMIT_SOURCE", "C11_CONTEXT_HELPERS",
           "MAX_RECURSION_PARSER"]
 TWO_MIB = 2 << 20
 NOISE_NAME = {"d": "lazy-load-deep-expr", "e": "lazy-load-deep-ast", "f": "lazy-load-deep-stmts", "g": "swallowed-lazy-syntax-error",
@@ -43,6 +43,7 @@ PROFILES = {
     "hooksO0": dict(hooks=True, opt0=True, release=False, tiers=("thorough",)),
 }
 LAZY = "defgh"
+ROOT_KIND = {"m": "map", "u": "unit ()", "x": "Value::UNDEFINED", "o": "custom Object", "e": "context!{}", "s": "serialized struct"}
 
 
 def build_variant(r, name):
@@ -98,7 +99,7 @@ def is_lazy(shape):
     return fam == "N" and shape[3] in LAZY
 
 
-def evaluate(r, profile, lines, model, stats, max_recursion):
+def evaluate(r, profile, lines, model, stats, max_recursion, band_start=None):
     hooks = PROFILES[profile]["hooks"]
     for i, line in enumerate(lines):
         f = line.split("\t")
@@ -116,7 +117,7 @@ def evaluate(r, profile, lines, model, stats, max_recursion):
         full = f"{profile} {case}"
         ms = md = mn = None
         if model is not None:
-            mc, ms, md, mn = model[i].split("\t")
+            mc, ms, md, mn = model[i].split("\t")[:4]
             md, mn = int(md), int(mn)
             if mc != case:
                 r.broken.append("model driver output does not line up with the harness cases")
@@ -128,7 +129,10 @@ def evaluate(r, profile, lines, model, stats, max_recursion):
         r.hist["status"][status.split(":")[0] + (":" + status.split(":")[1] if status.startswith("err") else "")] += 1
         r.hist["limit"][limit] += 1
         r.hist["thread"][thread_base] += 1
-        r.hist["entry_point"][mode or "render"] += 1
+        toks = [t for t in mode.split("+") if t]
+        r.hist["entry_point"]["+".join(t for t in toks if not (len(t) == 2 and t[0] == "r")) or "render"] += 1
+        r.hist["root_context_kind"][next((ROOT_KIND.get(t[1], t) for t in toks if len(t) == 2 and t[0] == "r"), "map")] += 1
+        mode = "+".join(t for t in toks if not (len(t) == 2 and t[0] == "r"))
         r.hist["top_error_kind"][topk] += 1
         if fam in "TMB":
             for e in shape[2:].split(","):
@@ -160,6 +164,13 @@ def evaluate(r, profile, lines, model, stats, max_recursion):
                                  f"depth-not-restored:{kind}")
             if hooks and (hwn > bound or hwd > bound):
                 r.oracle_failure(full, f"high-water marks exceed the limit {limit}: depth {hwd}, nested eval_impl {hwn}", f"high-water-exceeds-limit:{cls}")
+        # finite recursions placed around the cut-off of the accounting: exactly those the limit admits succeed
+        in_band = band_start is not None and i >= band_start
+        if in_band:
+            r.hist["cut_off_band"][f"{status.split(':')[0]}/{(ms or '?').split(':')[0]}"] += 1
+            if ms is not None and not crashed and {status, ms} == {"ok", "err:recursion"}:
+                r.oracle_failure(full, f"a finite recursion of {budget} steps at limit {limit} returned {status}; with the documented edge costs "
+                                       f"the limit {'does not admit' if ms != 'ok' else 'admits'} it (cut-off shifted)", f"cut-off-shifted:{cls}")
         # ---------------------------------------------------------------- correspondence
         if ms is not None and not crashed:
             if hooks and (status, hwd, hwn) != (ms, md, mn):
@@ -208,6 +219,7 @@ def run(r):
     r.assumptions = [
         "stack bytes per re-entry are measured on this toolchain/target, not proved",
         "a lazily loaded template is compiled on top of the recursion with the parser's own, separate recursion budget",
+        "the kind of the root context value (map, (), undefined, object, empty context!, serialized struct) does not enter the accounting (checked on every stream)",
         "frame pushes/pops inside one interpreter activation are balanced (compiled code; C05)",
         "templates only: a Rust callback that starts a fresh render does not inherit the depth",
         "the `stacker` feature is off (with it the limit is not clamped and the stack grows on demand)",
@@ -220,10 +232,27 @@ def run(r):
     # model driver still builds)
     exes = {p: e for p, e in builds(r).items() if e is not None}
     stats = {p: {"kinds": {}, "classes": {}, "overhead": 0, "lazy": {}} for p in exes}
-    model = None
-    cases_text = None
+
+    def drive(text):
+        try:
+            return r.driver("drive_c11", text)
+        except Exception as e:   # the oracle must still run
+            r.broken.append(f"model driver failed: {type(e).__name__}: {str(e)[:200]}")
+            return None
+
+    # phase 1: the enumerated cases on every build
+    phase1, model, cases_text = {}, None, None
+    gens = {}
+
+    def gen(profile, exe):
+        gens[profile] = r.harness(exe, ["gen", r.tier], timeout=3000)
+    ts = [threading.Thread(target=gen, args=(p_, e_)) for p_, e_ in exes.items()]
+    for t in ts:
+        t.start()
+    for t in ts:
+        t.join()
     for profile, exe in exes.items():
-        rc, out, err = r.harness(exe, ["gen", r.tier], timeout=3000)
+        rc, out, err = gens[profile]
         if rc != 0:
             r.broken.append(f"harness c11 ({profile}) exited {rc}: {err[-300:]}")
             continue
@@ -231,18 +260,70 @@ def run(r):
         text = "\n".join(l.split("\t")[0] for l in lines) + "\n"
         if cases_text is None:
             cases_text = text
-            try:
-                model = r.driver("drive_c11", text)
-            except Exception as e:   # the oracle must still run
-                r.broken.append(f"model driver failed: {type(e).__name__}: {str(e)[:200]}")
-                model = None
+            model = drive(text)
             if model is None or len(model) != len(lines):
                 r.broken.append("model driver output does not line up with the harness cases")
                 model = None
         elif text != cases_text:
             r.broken.append(f"case enumeration differs between build profiles ({profile})")
             continue
-        evaluate(r, profile, lines, model, stats, max_recursion)
+        phase1[profile] = lines
+    # phase 2: finite recursions around every cut-off the model computes (visit at which the unbounded
+    # run of the shape ends): budgets cut-2 .. cut+2 must succeed / fail exactly as the accounting says
+    band, band_model = [], None
+    if model is not None:
+        seen = set()
+        for k, ml in enumerate(model):
+            f = ml.split("\t")
+            if len(f) < 5 or f[1] != "err:recursion":
+                continue
+            shape, limit, budget, thread = f[0].split(" ")
+            if budget != "0" or shape[0] not in "TMB" or not thread.startswith("t2m") or int(limit) > max_recursion + 1:
+                continue
+            pure = "," not in shape
+            plain = shape.endswith("0000")
+            if r.tier == "quick" and ((not pure and k % 4 != 0) or (pure and not plain and k % 2 != 0)):
+                continue
+            if r.tier == "thorough" and not pure and k % 2 != 0:
+                continue
+            width = 2 if (pure and plain) or r.tier == "thorough" else 1
+            v = int(f[4])
+            for b in range(max(1, v - width), v + width + 1):
+                c = f"{shape} {limit} {b} {thread}"
+                if c not in seen:
+                    seen.add(c)
+                    band.append(c)
+        if band:
+            band_model = drive("\n".join(band) + "\n")
+            if band_model is None or len(band_model) != len(band):
+                r.broken.append("model driver output does not line up with the cut-off band cases")
+                band_model = None
+    r.extra["cut_off_band_cases"] = len(band)
+    bruns = {}
+
+    def brun(profile):
+        bruns[profile] = r.harness(exes[profile], ["run"], inp="\n".join(band) + "\n", timeout=3000)
+    # the cut-off does not depend on the build: quick runs the band on the instrumented and the release build
+    bprofiles = [p_ for p_ in phase1 if band and (r.tier == "thorough" or p_ in ("hooks", "release"))]
+    ts = [threading.Thread(target=brun, args=(p_,)) for p_ in bprofiles]
+    for t in ts:
+        t.start()
+    for t in ts:
+        t.join()
+    for profile, lines in phase1.items():
+        blines = []
+        if profile in bruns:
+            rc, out, err = bruns[profile]
+            if rc != 0 or len(out.splitlines()) != len(band):
+                r.broken.append(f"harness c11 ({profile}) did not run the cut-off band: rc {rc}")
+            else:
+                blines = out.splitlines()
+        m = None
+        if model is not None:
+            m = list(model) + (list(band_model) if (blines and band_model is not None) else [])
+            if blines and band_model is None:
+                m = None
+        evaluate(r, profile, lines + blines, m, stats, max_recursion, band_start=len(lines))
     # ---------------------------------------------------------------- stack margin (measured)
     known_sites = {k.get("site") for k in r.known}
     report = {}
